@@ -266,6 +266,28 @@ def rule_C08(env):
                 res.count("R08.c")
                 if lf.config_changes:
                     res.add("R08.c", "emit_and_process/%s/config-written" % op, "%s overwrites configuration field(s) %s" % (op, lf.config_changes), PV.op_loc(env, "::emit_and_process"))
+    # the public entry points themselves: interpreted with generate_internal stubbed; they must not write configuration
+    # (a setting changed by one call would change what the next call on the same generator returns)
+    k_gi0 = prog.find("::generate_internal")
+    from values import ok as _ok, Opaque as _Opaque
+    for ep in ("generator::Generator::generate", "generator::Generator::generate_from_arbitrary"):
+        k = prog.find(ep)
+
+        def one_ep(run, k=k):
+            I = Interp(prog, run, mf(), stubs={k_gi0: lambda I, kk, a: _ok(_Opaque("bytes"))})
+            h = ctx.make_generator(depth_bound=2)
+            one_ep.last = h
+            body = prog.bodies[k]
+            args = [h.ref()] + [Ref(Box_(_Opaque("data"), "data"), ()) for _ in range(body["arg_count"] - 1)]
+            I.call(k, args)
+            return h
+        for run, h, pe in explore(one_ep, max_runs=200):
+            res.count("R08.entry-config")
+            h = h if h is not None else one_ep.last
+            ch = h.config_changes()
+            if ch:
+                res.add("R08.c", "%s/config-written/%s" % (ep.split("::")[-1], ",".join(ch)),
+                        "%s overwrites configuration field(s) %s: later calls on the same generator see a different configuration" % (ep, ch), env.loc(k))
     # entry points pass through generate_internal exactly once; statics with interior mutability
     cg = CG.CallGraph(prog)
     k_gi = prog.find("::generate_internal")
